@@ -52,7 +52,13 @@ def run(res):
     join = rc.switch_runs(res, [('c17_asimpl_StaticSlotsUnmangled',
                                  rc.consts(maps=2, handles=2, layers=1, gen=1, ops=OPS_NAMES, builders=['m0'], phased=True,
                                            cls='Cls_Private', StaticSlotsUnmangled=False),
-                                 INV, PROP, ('SnapshotSucceeds',))])
+                                 INV, PROP, ('SnapshotSucceeds',)),
+                                # (no defect behind it) a snapshot whose _handle_names is a live view of the map's table
+                                # answers differently once the map has moved on
+                                ('c17_mutant_live_names',
+                                 rc.consts(maps=2, handles=2, layers=1, gen=1, ops=OPS_RESNAP, receivers=['m0'], builders=['m0'],
+                                           resnap=True, keep_snap=1, HandleNamesCopied=False),
+                                 INV, PROP, ('SnapshotReadsThrough',))])
     cfgs = _configs(thorough)
     pre = rc.dumps_in_parallel(res, cfgs, INV, PROP)
     join()
